@@ -72,6 +72,15 @@ def base_programs():
                       pipeline("TOP", "int x", "int r",
                                [call("MID", binds={"x": self_("x")}), call("B", binds={"v": ref("MID", "z")})],
                                {"r": ref("MID", "y")})], "TOP", {"x": 1}))
+    # a stage called under the same call name from two pipelines of one file
+    P.append(program("ref_two_callers", [],
+                     [stage("A", "int x, int k", "int y", {"y": const(71)}), stage("B", "int v", "int w", {"w": const(72)})],
+                     [pipeline("ONE", "int x", "int y", [call("A", binds={"x": self_("x"), "k": lit(1)})], {"y": ref("A", "y")}),
+                      pipeline("TWO", "int x", "int y", [call("A", binds={"x": self_("x"), "k": lit(2)}), call("B", binds={"v": ref("A", "y")})],
+                               {"y": ref("B", "w")}),
+                      pipeline("TOP", "int x", "int r, int s",
+                               [call("ONE", binds={"x": self_("x")}), call("TWO", binds={"x": self_("x")})],
+                               {"r": ref("ONE", "y"), "s": ref("TWO", "y")})], "TOP", {"x": 1}))
     # retain lists: a pipeline that retains several outputs of the same call (and one of an aliased
     # call of the same stage), a stage that retains one of its own outputs
     P.append(program("ref_retain", [],
